@@ -48,7 +48,7 @@ TECHNIQUE = 'runtime monitoring: structural invariants and reference typing/orde
 
 Mismatch = c05.Mismatch
 TYPE_NAME = {pbgen.INT: 'integer', pbgen.STR: 'string', pbgen.BOOL: 'boolean', pbgen.REAL: 'real',
-             pbgen.ENUM: 'Color', pbgen.ENUM2: 'Mood', pbgen.EVENT: 'inst<Event>', pbgen.UID: 'unique_id'}
+             pbgen.ENUM: 'Color', pbgen.ENUM2: 'Mood', pbgen.EVENT: 'inst<Event>', pbgen.UID: 'unique_id', pbgen.FLAG: 'Flag_t', pbgen.COUNT: 'Count_t'}
 STATEMENT_CLASSES = set(['AssignmentNode', 'InvocationStatementNode', 'ReturnNode', 'BreakNode', 'ContinueNode',
                          'ControlNode', 'CreateObjectNode', 'CreateObjectNoVariableNode', 'DeleteNode',
                          'RelateNode', 'RelateUsingNode', 'UnrelateNode', 'UnrelateUsingNode', 'SelectFromNode',
